@@ -5,7 +5,7 @@
    modelled: those handlers only call Raw and Connected()). *)
 From Coq Require Import List Arith Bool String ZArith.
 From Verif Require Import Lts LifecycleLts LifecycleBase LifecycleInv LifecycleInvC LifecycleInvE
-  LifecycleThms LifecycleLive LifecycleRefuted Consts Facts.
+  LifecycleThms LifecycleLive LifecycleRefuted LifecycleMeasure Consts Facts.
 Import ListNotations.
 Local Open Scope nat_scope.
 
@@ -67,17 +67,42 @@ Theorem C07_no_stuck_edges : forall hm hl w sched t g id ret,
   pcs s t = PClose (C2 g) id ret \/ pcs s t = PClose (C4 g) id ret -> enabled hm hl s t.
 Proof. intros. eapply teardown_step_enabled; [apply Inv_run|eassumption]. Qed.
 
-(* C07_measure (NOT PROVED — partial).  Full statement: there is mu : St -> nat such that for
-   every reachable s with in_teardown s = Some g and every step s -(t)-> s' of a thread
-   t in {Recv g, Loop g, Send g, Ping g, Waiter g, the closer, the user goroutines},
-   mu s' < mu s, e.g.
-     mu s = 2*(srv_in s g + inq s g) * (hmax+3) + outq s g + ticks s g * 2 + sum of the remaining
-            Raw calls of the user programs * 2 + sum over g's threads of the distance of their pc
-            to PDone.
-   Missing: the definition needs the (finite) set of user threads in the state and a proof
-   over all 61 transitions; what IS proved is deadlock freedom (C07_no_stuck) and that the
-   closer leaves the loop exactly when the wait group is empty (C07_no_leak).  Bounded TIME
-   therefore rests on the sampled runs of the correspondence check. *)
+(* termination of the teardown, WITHOUT any fairness assumption.  mu_of hm n s is a natural
+   number computed from the state (Proofs/LifecycleMeasure.v):
+     WS*srv_in + WT*ticks + WI*inq + WO*outq  (of the current generation; WO = 2, WI = 3*hm+4,
+     WS = WI+2, WT = 4)  +  the sum over all existing threads of rank(pc), the number of steps
+     the thread can still take before it ends or needs conn.mu (remaining Raw calls of a handler,
+     remaining program of a goroutine of the application, distance to the end of recv / runLoop /
+     send / ping / watcher / waiter / a DISCONNECTED or REGISTER handler).
+   While a closer is at C2 or C3 (teardown done, drain loop not left), EVERY step of EVERY thread
+   strictly decreases it, except the environment's (server closes, context cancelled), which
+   leave it unchanged.  So a livelock is impossible, and with C07_no_stuck the closer leaves the
+   drain loop after at most mu steps of the other threads. *)
+Theorem C07_measure : forall hm hl w sched t ch s',
+  let s := reach hm hl w sched in
+  busy s -> fstep hm hl s (t, ch) = Some s' ->
+  if is_env t then mu_of hm (List.length (w_progs w)) s' = mu_of hm (List.length (w_progs w)) s
+  else mu_of hm (List.length (w_progs w)) s' < mu_of hm (List.length (w_progs w)) s.
+Proof. exact teardown_measure. Qed.
+
+(* the number of (non-environment) steps any schedule takes while the teardown stays busy is
+   bounded by the measure at its start *)
+Theorem C07_teardown_bounded : forall hm hl w sched l,
+  (forall l1 l2, l = l1 ++ l2 -> l2 <> [] -> busy (run (fstep hm hl) (reach hm hl w sched) l1)) ->
+  work hm hl (reach hm hl w sched) l <= mu_of hm (List.length (w_progs w)) (reach hm hl w sched).
+Proof. exact teardown_bounded. Qed.
+
+(* non-vacuity: Close with 33 lines still to come and a handler that sends: the closer is in its
+   drain loop, the measure is 419, and after recv has queued three lines and the event loop has
+   dispatched one (its handler still has a Raw to do) it is 407 *)
+Example C07_measure_nonvacuous :
+  let w := mkw [[OpConnect (CkOk false); OpClose]] (fun _ => 33) (fun _ => 0) in
+  let sc := rep 10 (u0,0) ++ [(Recv 1,0);(Loop 1,0);(Send 1,0)] ++ rep 5 (u0,0) in
+  let s1 := reach 2 true w sc in
+  let s2 := reach 2 true w (sc ++ rep 6 (Recv 1,0) ++ [(Loop 1,3);(Loop 1,0);(Loop 1,0);(u0,1)]) in
+  pcs s1 u0 = PClose (C3 1) None (Some []) /\ mu s1 = Some u0 /\ mu_of 2 1 s1 = 419
+  /\ pcs s2 u0 = PClose (C3 1) None (Some []) /\ pcs s2 (Loop 1) = LH 1 1 /\ mu_of 2 1 s2 = 407.
+Proof. vm_compute. repeat split. Qed.
 
 (* I5: wait-group accounting, and no goroutine of a generation is left once its DISCONNECTED
    has been dispatched: each is at its end, or in a closeIf(rw) that can only return, or is
@@ -151,6 +176,8 @@ Proof. vm_compute. repeat split. Qed.
 Print Assumptions C07_history_ok.
 Print Assumptions C07_no_stuck.
 Print Assumptions C07_no_stuck_edges.
+Print Assumptions C07_measure.
+Print Assumptions C07_teardown_bounded.
 Print Assumptions C07_wg_accounting.
 Print Assumptions C07_no_leak.
 Print Assumptions C07_no_stale_close.
